@@ -542,6 +542,8 @@ STATIC_CULPRITS = [
     ("shadowed-unused-warning", "fn main() {{\n    let {C} = 1;\n    // between\n    let total = 2;\n    println(total);\n}}\n", "total", 2, "Unused variable 'total'"),
     ("shadowed-unused-hint", "fn main() {{\n    let second = 1;\n    // between\n    let {C};\n    println(second);\n}}\n", "second = 2", 0, "Variable 'second' shadowed here"),
     ("shadowed-unused-param", "fn f({C}: int) -> int {{\n    let amount = 2;\n    amount\n}}\nfn main() {{\n    println(f(1));\n}}\n", "amount", 2, "Unused parameter 'amount'"),
+    # an unused parameter of a FUNCTION LITERAL whose type is a named alias: the warning names the parameter, not the alias
+    ("unused-lambda-param-alias", "type Foo = {{ a: int }};\n\nfn main() {{\n    let f = fn({C}: Foo) -> int {{ 42 }};\n    println(f(new {{ a: 1 }}));\n}}\n", "culprit", 2, "Parameter 'culprit' is unused"),
     ("unused-import-host", "import {{ ping, {C} }} from net;\nfn main() {{\n    println(ping(\"a\", 1.0));\n}}\n", "http", 2, "Import `http` is unused"),
 ]
 
